@@ -200,7 +200,7 @@ func (ex *Exec) runPath(prefix []int) {
 					return
 				}
 				if re, ok := r.(runtime.Error); ok && strings.Contains(re.Error(), "symex.opaqueV") {
-					end = pathEnd{kind: "unsupported", msg: "opaque (unmodelled) value used: " + re.Error() + ex.stackOf(ex.curFrame)}
+					end = pathEnd{kind: "unsupported", msg: "opaque (unmodelled) value used" + ex.stackOf(ex.curFrame)}
 					return
 				}
 				panic(r)
